@@ -476,7 +476,7 @@ pub fn gen_cmd(rng: &mut Rng, w: &CliWorld) -> UCmd {
 
 fn gen_world_and_cmd(seed: u64) -> (CliWorld, UCmd) {
   let mut r = Rng::stream(seed, "world");
-  let mut w = cli_world::gen_world(&mut r, &GenOpts { max_files: 8, allow_special: true, with_tests: false, fix_heavy: true, order_sensitive_rules: false, hard_links: false, injections: true });
+  let mut w = cli_world::gen_world(&mut r, &GenOpts { max_files: 8, allow_special: true, with_tests: false, fix_heavy: true, order_sensitive_rules: false, hard_links: false, injections: true, lang_globs: false });
   // embedded documents are the interesting case: make them frequent
   if r.chance(0.5) {
     let n = w.files.len();
